@@ -453,7 +453,7 @@ class C09(Prop):
                 continue
             crules = [{"tag": "r0", "imports": FILE_MODULES, "cond": "pe.number_of_sections >= 0 or elf.number_of_sections >= 0 or "
                        "macho.ncmds >= 0 or dotnet.number_of_streams >= 0 or dex.number_of_methods >= 0"}]
-            for what, edit in mg.count_field_sweep(a[1], a[2]):
+            for what, edit in list(mg.count_field_sweep(a[1], a[2])) + (list(mg.truncation_sweep(a[1], a[2])) if len(a[1]) < 20000 else []):
                 cases.append({"kind": "explore", "asset": a[0], "fkind": a[2], "mutation": "count-field", "what": [what],
                               "edits": [edit], "layout": None, "params": {"process_memory": False}, "rules": crules})
         # directed family: RT_VERSION entries whose declared length ends before / inside / right after the wide key and
